@@ -21,6 +21,14 @@ and histograms no live process has.  Such a pid is never a simulated process.  I
 buckets are keyed by float(le_text); the exposed `le` must be the canonical rendering of the bound (C13's independent
 oracle, `canonical_le`) and one bound must be exposed once (sig C08:le-not-canonical, checked before everything else).
 
+STRING IDENTITIES: `process_identifier` may return anything; besides small ints the pid pool has strings without '_' and
+glob metacharacters, in look-alike groups that always occur TOGETHER in a scenario ('w-0b', 'w-0d', 'w-0', 'w-0.'; 'a.db',
+'a', 'a.d'; 'bd', 'd', 'b', '.'; ...): the pid label of a gauge series must be the identity string exactly.
+FILE AGE: per scenario ('age': now / 3s / 1h / keep) the mtime of every store file is set before EVERY collection point
+(also right after mark_process_dead), as harness/props/c12.py does: a file that LOOKS idle must still be re-read.
+CORRUPT STORE FILES: a key in a file the library itself wrote that is no longer the canonical JSON of
+[str, str, {str: str}, str] is an oracle failure (C08:store-file-corrupt), not an infrastructure error.
+
 MODEL: at every collection point the files (read through the real store reader, in the collector's glob order) go to
 driver `c08 merge`; the model M and the spec S outputs are both compared with the real collector's output; every
 `mark_process_dead` goes to `c08 dead`.
@@ -59,6 +67,22 @@ SPECIAL = [NAN, INF, -INF]
 HIST_AMOUNTS = [0.0, 0.125, 0.5, 1.0, 2.0, 2.5, 3.0, 8.0, 0.0625, 1024.0, 1000000.0, 2000000.0, float(2 ** 40), -1.0,
                 -0.5, -2.0, 10.0, 0.25, 0.75, 5.0, 7.5]
 PID_POOL = [1, 2, 3, 7, 10, 11, 12, 123, 4567]
+# identities that are not numbers (no '_' — the file name is split at it —, no glob metacharacters): look-alike groups
+ID_GROUPS = [['w-0b', 'w-0d', 'w-0', 'w-0.'], ['a.db', 'a', 'a.d', 'a.b'], ['bd', 'd', 'b', '.'], ['x.d.b', 'x', 'x.d', 'x.b'],
+             ['worker.3', 'worker.3d', 'worker.', 'worker']]
+AGES = ('now', '3s', '1h', 'keep')
+
+
+def age_files(d, age, t0):
+    """set the mtime of every store file: now / 3 s / 1 h before the start of the scenario / unchanged (as props/c12.py)"""
+    if age in (None, 'keep'):
+        return
+    t = {'now': time.time(), '3s': t0 - 3.0, '1h': t0 - 3600.0}[age]
+    for f in mpsim.listing(d):
+        try:
+            os.utime(f, (t, t))
+        except FileNotFoundError:
+            pass
 FOREIGN_PIDS = [5, 6, 8, 9, 100, 77, 5000, 31337]       # never simulated processes: no live mmap is open on their files
 LABEL_VALUES = ['', 'x', 'y', 'é', 'a"b\\c', 'x y']
 LABEL_NAMES = [['l'], ['k'], ['l', 'k'], ['k', 'l'], ['a_b']]
@@ -469,7 +493,8 @@ class World:
         if pid not in self.procs:
             k = self.incarnation.get(pid, 0)
             self.incarnation[pid] = k + 1
-            self.procs[pid] = RealProc(self.sim.new_class(pid), self.pool, self.sim.use, self.sim.clock, (pid + k) % 3)
+            self.procs[pid] = RealProc(self.sim.new_class(pid), self.pool, self.sim.use, self.sim.clock,
+                                       ((pid if isinstance(pid, int) else len(pid)) + k) % 3)
         return self.procs[pid]
 
     def end(self, pid):
@@ -565,7 +590,8 @@ class World:
         self.events += 1
         names = [os.path.basename(p) for p in self.sim.listing()]
         mine = 'histogram_%s.db' % pid
-        live = [k for k, bn in enumerate(names) if bn.startswith('histogram_') and int(bn[10:-3]) in self.incarnation]
+        simulated = set(str(q) for q in self.incarnation)
+        live = [k for k, bn in enumerate(names) if bn.startswith('histogram_') and bn[10:-3] in simulated]
         if mine in names and live:
             at = names.index(mine)
             res.count('foreign:listed-before-live' if at < min(live) else ('foreign:listed-after-live' if at > max(live) else 'foreign:listed-between-live'))
@@ -609,7 +635,14 @@ class World:
                     res.failures.append(('C08:store-file-unreadable:' + entries.cls,
                                          'the store reader raised %s on %s: %s' % (entries.cls, bn, entries.msg), i))
                 files.append((bn, typ, mode, pid, entries))
-            res.pending.append((mpsim.merge_request(files), canon, i))
+            line = mpsim.merge_request(files)
+            if line is None:
+                for bn, typ, mode, pid, entries in files:
+                    for _, j, raw in mpsim.corrupt_keys({bn: entries}):
+                        res.failures.append(('C08:store-file-corrupt', 'entry %d of %s (written by the library itself) has the key %r, which is '
+                                             'not the canonical JSON text of [name, sample name, {labels}, help]' % (j, bn, raw[:160]), i))
+            else:
+                res.pending.append((line, canon, i))
         nontrivial = len(self.oracle.held) >= 2 or self.events > 0
         key = hashlib.md5(mpsim.fams_fingerprint(canon).encode('utf-8')).hexdigest() if nontrivial else None
         sample = None
@@ -631,10 +664,18 @@ def run_scenario(scen, want_model=True, want_sample=False):
             res.count('histogram-labelled:' + ('le-not-last' if le_not_last(md) else 'le-last'))
         elif md['labels']:
             res.count('non-histogram-labelled:' + ('user-label-named-le' if 'le' in md['labels'] else 'other'))
+    res.count('age:' + str(scen.get('age', 'keep')))
+    ids = set(st[1] for st in scen['steps'] if len(st) > 1)
+    if any(isinstance(q, str) for q in ids):
+        res.count('identities:strings')
+        if any(len(ids & set(g)) >= 2 for g in ID_GROUPS):
+            res.count('identities:look-alike-group')
+    t0 = time.time()
     with mpsim.Sim() as sim:
         w = World(sim, scen['pool'], res, want_sample)
         for i, st in enumerate(scen['steps']):
             w.step(i, st)
+            age_files(sim.dir, scen.get('age'), t0)
             w.collect_point(i, want_model)
     return res
 
@@ -730,6 +771,30 @@ def corpus():
               ['obs', 3, 1, ['x'], B(NAN)]]
         out.append({'pool': pool, 'steps': s})
     out += foreign_corpus()
+    out += identity_corpus()
+    for k, sc in enumerate(out):
+        sc.setdefault('age', AGES[k % 4])
+    return out
+
+
+def identity_corpus():
+    """look-alike string identities together; idle-looking files that change between two collections"""
+    out = []
+    for g in ID_GROUPS:
+        a, b, c = g[0], g[1], g[2]
+        for mode in ('all', 'liveall', 'min', 'max', 'sum', 'livesum'):
+            pool = [mdef('gauge', 'g', (), mode), mdef('gauge', 'gl', ['l'], mode), mdef('counter', 'c')]
+            out.append({'pool': pool, 'steps': [
+                ['set', a, 0, [], B(1.0), B(10.0)], ['set', b, 0, [], B(2.0), B(11.0)], ['set', c, 0, [], B(4.0), B(12.0)],
+                ['set', b, 1, ['x'], B(-1.0), B(13.0)], ['set', c, 1, ['x'], B(8.0), B(13.0)], ['inc', a, 2, [], B(1.0)], ['inc', b, 2, [], B(2.0)],
+                ['dead', b], ['set', g[3], 0, [], B(16.0), B(14.0)], ['reuse', b], ['set', b, 0, [], B(32.0), B(15.0)], ['dead', a], ['dead', c]]})
+    # a file that looks idle is still re-read: the same worker keeps updating between collections
+    for age in ('1h', '3s', 'now', 'keep'):
+        pool = [mdef('counter', 'c'), mdef('gauge', 'g', (), 'all'), mdef('histogram', 'h', (), '', 'small')]
+        out.append({'age': age, 'pool': pool, 'steps': [
+            ['inc', 1, 0, [], B(1.0)], ['inc', 1, 0, [], B(2.0)], ['inc', 2, 0, [], B(4.0)], ['inc', 1, 0, [], B(8.0)],
+            ['set', 1, 1, [], B(1.0), B(10.0)], ['set', 1, 1, [], B(2.0), B(11.0)], ['obs', 2, 2, [], B(1.0)], ['obs', 2, 2, [], B(3.0)],
+            ['dead', 1], ['inc', 2, 0, [], B(16.0)], ['reuse', 1], ['inc', 1, 0, [], B(32.0)]]})
     return out
 
 
@@ -915,6 +980,9 @@ def gen_value(rng, md, op):
 
 def gen_scenario(rng, all_modes, long=False):
     pids = rng.sample(PID_POOL, rng.choice([1, 2, 2, 3, 3, 3, 4, 4]))
+    if rng.random() < 0.2:      # identities that are strings, look-alikes together
+        g = rng.choice(ID_GROUPS)
+        pids = rng.sample(g, rng.choice([2, 3, 3, 4])) + ([rng.choice(PID_POOL)] if rng.random() < 0.3 else [])
     pool = [gen_metric(rng, i, all_modes) for i in range(rng.randint(1, 5))]
     cands = []
     for md in pool:
@@ -958,7 +1026,7 @@ def gen_scenario(rng, all_modes, long=False):
             hs.append(len(pool) - 1)
         for _ in range(rng.randint(1, 3)):
             steps.insert(rng.randint(len(steps) // 3, len(steps)), gen_foreign_step(rng, pool, cands, rng.choice(hs)))
-    return {'pool': pool, 'steps': steps}
+    return {'pool': pool, 'steps': steps, 'age': rng.choice(AGES)}
 
 
 # ================================================================================================== real fork
@@ -993,7 +1061,7 @@ def gen_fork_scenario(rng, all_modes):
                 ops.append([op, w, mi, lvs, B(t if op == 'settime' else gen_value(rng, md, 'set')), B(t)])
         workers.append(ops)
     dead = [w for w in range(len(workers)) if rng.random() < 0.5]
-    return {'pool': pool, 'workers': workers, 'dead': dead, 'fork': True}
+    return {'pool': pool, 'workers': workers, 'dead': dead, 'fork': True, 'age': rng.choice(AGES)}
 
 
 def oracle_apply(oracle, pid, st):
@@ -1015,6 +1083,7 @@ def run_fork_scenario(scen):
     from prometheus_client import multiprocess, values
     res = Result()
     pool = scen['pool']
+    t0 = time.time()
     with mpsim.Sim() as sim:
         pids = []
         sys.stdout.flush()
@@ -1055,9 +1124,11 @@ def run_fork_scenario(scen):
             for st in scen['workers'][w]:
                 oracle_apply(world.oracle, pid, st)
         world.events = 0
+        age_files(sim.dir, scen.get('age'), t0)
         world.collect_point(0)
         for j, w in enumerate(scen['dead']):
             world.step(1 + j, ['dead', pids[w]])
+            age_files(sim.dir, scen.get('age'), t0)
             world.collect_point(1 + j)
     res.count('fork-scenarios')
     res.count('fork-workers', len(scen['workers']))
@@ -1208,7 +1279,8 @@ def run(ctx):
     ctx.rule = ('scenario = metric pool (counters, summaries, histograms of 5 bucket layouts, gauges of the 10 modes, labelled or not) '
                 '+ step list over 1-4 simulated processes (create / child / inc / dec / observe / set at a scripted time / '
                 'Gauge.set_to_current_time at a scripted time / Counter.reset / mark_process_dead / pid reuse / foreign histogram store file with non-canonical le spellings, written through the '
-                'library store); label names before and after "le"; hand-written corpus per mode first, then seeded random scenarios; one case = '
+                'library store); label names before and after "le"; int and string identities (look-alike groups together); file mtimes '
+                'aged per scenario (now/3s/1h/keep) before every collection; hand-written corpus per mode first, then seeded random scenarios; one case = '
                 'one collection point (a collection follows every step); non-trivial when >= 2 processes hold data or a '
                 'death/reuse happened; distinct by the canonical collected output')
     quick = ctx.tier == 'quick'
